@@ -1442,3 +1442,67 @@ Lemma lwp_dedup_loc : forall (xs : list (list wloc)) t ids,
      nth_error ids k1 = Some i1 -> nth_error ids k2 = Some i2 -> (x1 = x2 <-> i1 = i2)) /\
   (forall y, In y t <-> In y xs).
 Proof. exact (lw_dedup _ (lw_list_eqb_spec _ lw_wloc_eqb_spec)). Qed.
+
+(* ================================================================ Part 9: add ... add; write; read — end to end *)
+
+Lemma lw_offsets_get offs i o : nth_error offs i = Some o -> offsets_get offs i = Ok o.
+Proof. unfold offsets_get. intros ->. reflexivity. Qed.
+
+Lemma lwp_added_lists_read_back_v5 :
+  forall (dbg dbg' be fmt64 : bool) (asz : N) attrs (rstart lstart : N)
+    (rxs : list (list wrange)) (lxs : list (list wloc)) rtbl rids ltbl lids rb ro lb lo (rsec lsec : list byte) (base : N),
+  rng_add_all [] rxs = (rtbl, rids) -> loc_add_all [] lxs = (ltbl, lids) ->
+  unit_write_lists dbg be fmt64 5 asz attrs rstart lstart rtbl ltbl = Ok ((rb, ro), (lb, lo)) ->
+  N.of_nat (length rsec) = rstart -> N.of_nat (length lsec) = lstart -> unit_wf rtbl ltbl ->
+  (forall k x, nth_error rxs k = Some x ->
+     exists id o es rest, nth_error rids k = Some id /\ offsets_get ro id = Ok o /\
+       dec5 dbg' false be asz (at_offset o (rsec ++ rb)) = Ok (es, rest) /\
+       ents_of (map loc_of_range x) = Some es /\
+       meaning_rng asz base x = Some (map fst (resolve asz base es))) /\
+  (forall k x, nth_error lxs k = Some x ->
+     exists id o es rest, nth_error lids k = Some id /\ offsets_get lo id = Ok o /\
+       dec5 dbg' true be asz (at_offset o (lsec ++ lb)) = Ok (es, rest) /\
+       ents_of x = Some es /\
+       meaning_loc asz base x = Some (resolve asz base es)).
+Proof.
+  intros dbg dbg' be fmt64 asz attrs rstart lstart rxs lxs rtbl rids ltbl lids rb ro lb lo rsec lsec base
+    Hra Hla Hw Hrs Hls Hwf.
+  destruct (lw_dedup _ (lw_list_eqb_spec _ lw_wrange_eqb_spec) _ _ _ Hra) as [_ [_ [Hrk _]]].
+  destruct (lw_dedup _ (lw_list_eqb_spec _ lw_wloc_eqb_spec) _ _ _ Hla) as [_ [_ [Hlk _]]].
+  destruct (lw_unit_read_v5 _ dbg' _ _ _ _ _ _ _ _ _ _ _ _ rsec lsec base Hw Hrs Hls Hwf) as [Hr Hl]. split.
+  - intros k x Hx. destruct (Hrk k x Hx) as [id [Hid Ht]].
+    destruct (Hr id x Ht) as [o [es [rest [Ho [Hd [He Hm]]]]]].
+    exists id, o, es, rest. repeat split; try assumption. now apply lw_offsets_get.
+  - intros k x Hx. destruct (Hlk k x Hx) as [id [Hid Ht]].
+    destruct (Hl id x Ht) as [o [es [rest [Ho [Hd [He Hm]]]]]].
+    exists id, o, es, rest. repeat split; try assumption. now apply lw_offsets_get.
+Qed.
+
+Lemma lwp_added_lists_read_back_v4 :
+  forall (dbg dbg' be fmt64 : bool) (version asz : N) attrs (rstart lstart : N)
+    (rxs : list (list wrange)) (lxs : list (list wloc)) rtbl rids ltbl lids rb ro lb lo (rsec lsec : list byte),
+  rng_add_all [] rxs = (rtbl, rids) -> loc_add_all [] lxs = (ltbl, lids) ->
+  unit_write_lists dbg be fmt64 version asz attrs rstart lstart rtbl ltbl = Ok ((rb, ro), (lb, lo)) ->
+  2 <= version <= 4 ->
+  N.of_nat (length rsec) = rstart -> N.of_nat (length lsec) = lstart -> unit_wf rtbl ltbl ->
+  (forall k x, nth_error rxs k = Some x -> ~ marker_clash asz (map loc_of_range x) ->
+     exists id o ps rest, nth_error rids k = Some id /\ offsets_get ro id = Ok o /\
+       dec4 dbg' false be asz (at_offset o (rsec ++ rb)) = Ok (ps, rest) /\
+       meaning_rng asz (unit_base attrs) x = Some (map fst (resolve asz (unit_base attrs) ps))) /\
+  (forall k x, nth_error lxs k = Some x -> ~ marker_clash asz x ->
+     exists id o ps rest, nth_error lids k = Some id /\ offsets_get lo id = Ok o /\
+       dec4 dbg' true be asz (at_offset o (lsec ++ lb)) = Ok (ps, rest) /\
+       meaning_loc asz (unit_base attrs) x = Some (resolve asz (unit_base attrs) ps)).
+Proof.
+  intros dbg dbg' be fmt64 version asz attrs rstart lstart rxs lxs rtbl rids ltbl lids rb ro lb lo rsec lsec
+    Hra Hla Hw Hv Hrs Hls Hwf.
+  destruct (lw_dedup _ (lw_list_eqb_spec _ lw_wrange_eqb_spec) _ _ _ Hra) as [_ [_ [Hrk _]]].
+  destruct (lw_dedup _ (lw_list_eqb_spec _ lw_wloc_eqb_spec) _ _ _ Hla) as [_ [_ [Hlk _]]].
+  destruct (lw_unit_read_v4 _ dbg' _ _ _ _ _ _ _ _ _ _ _ _ _ rsec lsec Hw Hv Hrs Hls Hwf) as [Hr Hl]. split.
+  - intros k x Hx Hc. destruct (Hrk k x Hx) as [id [Hid Ht]].
+    destruct (Hr id x Ht Hc) as [o [ps [rest [Ho [Hd Hm]]]]].
+    exists id, o, ps, rest. repeat split; try assumption. now apply lw_offsets_get.
+  - intros k x Hx Hc. destruct (Hlk k x Hx) as [id [Hid Ht]].
+    destruct (Hl id x Ht Hc) as [o [ps [rest [Ho [Hd Hm]]]]].
+    exists id, o, ps, rest. repeat split; try assumption. now apply lw_offsets_get.
+Qed.
